@@ -21,10 +21,11 @@ type c09Cfg struct {
 	always       bool
 	useSep       int
 	useQuote     int
+	alternate    bool // rotate through the configured quote symbols and separators field by field
 }
 
 func (k c09Cfg) String() string {
-	return fmt.Sprintf("separators=%q quotes=%q eol=%q always-quote=%v writer-uses sep %q quote %q", string(k.seps), string(k.quotes), k.eol, k.always, string(k.seps[k.useSep]), string(k.quotes[k.useQuote]))
+	return fmt.Sprintf("separators=%q quotes=%q eol=%q always-quote=%v writer-uses sep %q quote %q alternating=%v", string(k.seps), string(k.quotes), k.eol, k.always, string(k.seps[k.useSep]), string(k.quotes[k.useQuote]), k.alternate)
 }
 
 var c09Configs []c09Cfg
@@ -39,7 +40,10 @@ func init() {
 				for _, always := range []bool{false, true} {
 					for us := range s {
 						for uq := range q {
-							c09Configs = append(c09Configs, c09Cfg{s, q, e, always, us, uq})
+							c09Configs = append(c09Configs, c09Cfg{s, q, e, always, us, uq, false})
+							if len(s) > 1 || len(q) > 1 {
+								c09Configs = append(c09Configs, c09Cfg{s, q, e, always, us, uq, true})
+							}
 						}
 					}
 				}
@@ -51,13 +55,20 @@ func init() {
 func c09Write(table [][]string, k c09Cfg) string {
 	var sb strings.Builder
 	q := string(k.quotes[k.useQuote])
+	n := 0
 	for ri, row := range table {
 		if ri > 0 {
 			sb.WriteString(k.eol)
 		}
 		for fi, f := range row {
+			sep := k.seps[k.useSep]
+			if k.alternate {
+				q = string(k.quotes[(k.useQuote+n)%len(k.quotes)])
+				sep = k.seps[(k.useSep+n)%len(k.seps)]
+			}
+			n++
 			if fi > 0 {
-				sb.WriteRune(k.seps[k.useSep])
+				sb.WriteRune(sep)
 			}
 			need := k.always || strings.ContainsAny(f, "\r\n"+string(k.seps)+string(k.quotes))
 			if need {
@@ -205,7 +216,7 @@ func init() {
 	fw.Register(&fw.Check{
 		ID:    "C09",
 		Level: "model_checking",
-		Rule: "tables of 1..2 rows x 1..2 columns (thorough: also 3x2 over a reduced pool) with fields from a 22-string pool (empty, blanks, every separator and quote symbol, doubled quotes, LF, CR, CRLF, embedded line break, Latin-1, non-Latin, U+FFFE) x 144+ configurations (4 separator sets incl. TAB and U+2192, 3 quote sets incl. U+201D, 4 line endings, quote-when-needed / always-quote, every choice of the configured separator and quote used by the writer); " +
+		Rule: "tables of 1..2 rows x 1..2 columns (thorough: also 3x2 over a reduced pool) with fields from a 22-string pool (empty, blanks, every separator and quote symbol, doubled quotes, LF, CR, CRLF, embedded line break, Latin-1, non-Latin, U+FFFE) x 144+ configurations (4 separator sets incl. TAB and U+2192, 3 quote sets incl. U+201D, 4 line endings, quote-when-needed / always-quote, every choice of the configured separator and quote used by the writer, fixed for the document or rotating field by field); " +
 			"oracle: reference writer, then TokenizeBuffer with string decoding, regrouped (Eol = row break, separator symbol = field break, Word/Quoted values concatenate) equals the table, and each line ending is exactly one Eol token; non-trivial = tables with more than one field",
 		Assume: []string{"characters above U+FFFE are outside the configured range and not used", "the document has no trailing line ending"},
 		Spaces: func(tier string) []fw.Space {
